@@ -349,6 +349,24 @@ def run(tier, seed):
                 if k is not None and not k.startswith('D10:tolerant'):
                     k = 'D10:tolerant-normalised'
                 chk.fail(k, {'clause': 'tolerant-verbatim', 'encoded': text, **rep}, rep)
+    # the result of a factory call is a function of its arguments: the same calls in another order (TOLERANT before STRICT,
+    # and each call repeated) must return what they returned the first time — a memo keyed on too little (seed C13-h) shows here
+    pairs = sorted({(v, d, s) for (v, d, s, _) in jobs if v in reps})
+    sample = rng.sample(pairs, min(len(pairs), 6000 if tier == 'quick' else 60000))
+    replays = 0
+    for (v, d, s) in sample:
+        for strict in (False, True, True, False):
+            if (v, d, s, strict) not in res:
+                continue
+            o2 = impl(d, s, v, strict, ec)
+            chk.evals += 1
+            replays += 1
+            if o2 != res[(v, d, s, strict)]:
+                rep = {'api': 'datatype_factory(datatype, value, version, level).to_er7()', 'version': v, 'datatype': d, 'value': s,
+                       'level': 'STRICT' if strict else 'TOLERANT', 'after': 'the same value submitted under the other level first (TOLERANT, STRICT, STRICT, TOLERANT)'}
+                _fail(None, {'clause': 'acceptance depends on the calls made before', 'first_time': res[(v, d, s, strict)], 'now': o2, **rep}, rep)
+                break
+    chk.dist['calls_replayed_in_another_order'] = replays
     chk.dist['result_kinds'] = kinds
     chk.dist['cases_per_datatype'] = {d: sum(1 for c in cases if c[0] == d) for d in DTS}
     chk.dist['lexically_valid_distinct'] = len(chk.nontrivial)
